@@ -360,6 +360,8 @@ func runC03(c *Check, a *Analysis) {
 
 	// ---- R-SERVER-CLOSE
 	ruleServerClose(c, a, "R-SERVER-CLOSE")
+	// the sweep's stop() must actually wake stream readers (no lost wake-up)
+	ruleStop(c, a, "R-STOP")
 }
 
 func pendingOps2(p *Prog, fn *ssa.Function, kind string) []MapOp {
